@@ -113,6 +113,13 @@ fn judge(c: &CaseIn, r: &Result<Vec<u8>, String>) -> Option<String> {
 fn main() {
     std::panic::set_hook(Box::new(|_| {}));
     let av: Vec<String> = std::env::args().collect();
+    // the process has used rayon before (a long-lived host; an earlier module): one small parallel
+    // parse + emit outside of any exploration, so that every item below - and every replay - starts from
+    // the same process history
+    {
+        let tiny: [u8; 30] = [0, 0x61, 0x73, 0x6d, 1, 0, 0, 0, 1, 4, 1, 0x60, 0, 0, 3, 3, 2, 0, 0, 0x0a, 7, 2, 2, 0, 0x0b, 2, 0, 0x0b, 0, 0];
+        let _ = std::panic::catch_unwind(|| walrus::Module::from_buffer(&tiny[..28]).map(|mut m| m.emit_wasm()));
+    }
     let cases = read_cases(&av[1]);
     let items: Vec<Value> = serde_json::from_str(&std::fs::read_to_string(&av[2]).unwrap()).unwrap();
     let (proc_i, nprocs): (usize, usize) = (av[3].parse().unwrap(), av[4].parse().unwrap());
